@@ -8,6 +8,8 @@ import Dmn.Model.ScopeCell
 import Dmn.Lemmas.ScopeCell
 import Dmn.Lemmas.StringIndex
 import Dmn.Lemmas.LongestName
+import Dmn.Lemmas.EvalBifs
+import Dmn.Gen.ParserScope
 
 /-!
 # C05 (parser side) — FEEL parsing is total
@@ -588,3 +590,75 @@ example : loneName [32, 70, 117, 108, 108, 32, 32, 32, 78, 97, 109, 101, 32] = s
   decide
 
 end Dmn.LongestName
+
+/-! ## Evaluation with the modelled built-ins in place of the parameter (wave 9)
+
+`eval_no_panic` takes the built-in functions as parameters (`bp`, `bn`).  `Dmn.Eval.bifPosModel` is the
+positional invocation of the model: the regenerated dispatch table of `positional.rs` over the modelled `core::`
+functions of property C08 (both integer modes).  `evaluate_total` instantiates the parameter with it.  What is
+still a parameter, exactly: (1) `rest`, asked only where `Dmn.Bif.callPositional` has no answer — the name is no
+built-in, or the arm calls one of the `core::` functions without a model in `Dmn.Bif.coreTable`
+(`unmodelled_builtins_pinned` lists the built-ins concerned, computed from the regenerated table: the numeric
+ones are modelled in `Dmn.DecFeel` (C06/C07) and the temporal constructors in `Dmn.TemporalMachine`
+(`temporal_no_panic_*` above), but not joined to the dispatch); (2) `bn`, the invocation with named arguments
+(`named.rs`: its index-safety is not proved; C08 proves it equal to the positional one on the signatures);
+(3) `num`, the decimal arithmetic (total functions, no panic outcome).  A `Vec` / `String` argument longer than
+`usize::MAX` (which cannot be allocated) makes the model give up (`diverge`). -/
+
+namespace Dmn.Eval
+
+/-- **Evaluation is total with the modelled built-ins.**  For every expression, scope, fuel, integer mode:
+the evaluator model with the modelled positional built-ins returns a value (with the scope) or `diverge` —
+never a panic. -/
+theorem evaluate_total (m : IntMode) (num : NumOps) (rest : String → List Value → Outcome Value)
+    (bn : String → List (String × Value × Nat) → Outcome Value)
+    (hrest : ∀ n a p, rest n a ≠ .panic p) (hbn : ∀ n a p, bn n a ≠ .panic p)
+    (fuel : Nat) (a : Ast) (s : Scope) :
+    (∀ p, eval num (bifPosModel m rest) bn fuel a s ≠ .panic p) ∧
+    ((∃ r, eval num (bifPosModel m rest) bn fuel a s = .ok r) ∨ eval num (bifPosModel m rest) bn fuel a s = .diverge) := by
+  have h : ∀ p, eval num (bifPosModel m rest) bn fuel a s ≠ .panic p :=
+    fun p => eval_no_panic num (bifPosModel m rest) bn (bifPosModel_no_panic m rest hrest) hbn fuel a s p
+  refine ⟨h, ?_⟩
+  cases hr : eval num (bifPosModel m rest) bn fuel a s with
+  | ok r => exact Or.inl ⟨r, rfl⟩
+  | panic p => exact absurd hr (h p)
+  | diverge => exact Or.inr rfl
+
+/-- non-vacuity: the hypotheses hold of the parameters that answer null; and the modelled built-ins are really
+asked: `sublist([1,2,3], -5, 1)` (a panic before the repair df73e95) is answered by the model, not by `rest` -/
+example : (∀ n a p, (fun (_ : String) (_ : List Value) => (Outcome.ok Value.null : Outcome Value)) n a ≠ .panic p) ∧
+    Dmn.Bif.callPositional (Dmn.Bif.core .checked) "count" [.list [.null, .null]] ≠ none := by
+  refine ⟨fun _ _ _ h => (by cases h), (by decide)⟩
+
+/-- Which built-ins are still (partly) the parameter `rest`: those with an arm that calls a `core::` function
+without a model — computed from the regenerated dispatch table; 21 of 73. -/
+theorem unmodelled_builtins_pinned :
+    unmodelledBuiltins = ["abs", "after", "before", "ceiling", "coincides", "date", "date and time", "decimal",
+      "duration", "even", "exp", "floor", "log", "lower case", "modulo", "odd", "sort", "sqrt", "time", "upper case",
+      "years and months duration"] ∧ Dmn.Gen.BifDispatch.bifNames.length = 73 := by
+  decide +kernel
+
+end Dmn.Eval
+
+/-! ## The reduce actions that change the parsing scope are among the oracles of `lalr_no_panic`
+
+`lalr_no_panic` quantifies over every oracle `act : rule number → look-ahead → ok / error` for the reduce
+actions.  The actions that push / pop / write the parsing scope (table `Dmn.Gen.ParserScope`, regenerated by
+C13's translate/parser_scope.py from feel.y and parser.rs) are reduce actions of the same rule numbering: the two
+translators read the same `YY_R1` / `YY_R2`, and every rule of the driver has a row in C13's table.  Hence the
+driver loop cannot panic whatever those actions do to the scope; that the scope stack is never popped empty by
+them is C13's `rule_actions_balanced` and `parse_depth_balanced`.  Not proved: termination of the loop as a whole (`parse_total`; what is
+proved is `lalr_step_progress` — every three iterations shift a token or reduce a rule — and
+`lexer_progress`), and the depth of the value / node stacks inside the actions (they return `Err`). -/
+
+namespace Dmn.Lalr
+
+theorem reduce_actions_cover_scope_actions :
+    Dmn.Gen.ParserScope.drvR1.map Int.ofNat = Dmn.Gen.Lalr.YY_R1 ∧
+    Dmn.Gen.ParserScope.drvR2.map Int.ofNat = Dmn.Gen.Lalr.YY_R2 ∧
+    Dmn.Gen.ParserScope.drvReduce.length = Dmn.Gen.Lalr.YY_R1.length ∧
+    Dmn.Gen.ParserScope.grammar.length = Dmn.Gen.Lalr.YY_R1.length ∧
+    Dmn.Gen.ParserScope.drvNTokens = Dmn.Gen.ParserScope.nTerminals := by
+  decide +kernel
+
+end Dmn.Lalr
